@@ -31,7 +31,7 @@ SPEC = {
         'the wire models cover Decode(&interface{}) and Decode(&Raw) from []byte for cbor, msgpack, simple, binc (outcome class + NumBytesRead compared as Coq cases); typed destinations, io.Reader transports, the other option flags and json are covered by the oracle only',
         'msgpack model cases run with MapValueReset=true (the wire model assumption); repeated map keys are outside the cbor/simple/binc models and not compared',
     ],
-    'trusted_extra': ['modelled, not verified: the four wire models; decInferLen / usableByteSlice / maxInitLen as transcribed by hand in C02/Alloc.v (the translator does not handle decInferLen's local const block) and tied by the leaf stream through the hook VerifC02DecInferLen / VerifC02UsableByteSliceLen; GC, real memory, wall time and the recover at the Decode boundary are runtime'],
+    'trusted_extra': ['modelled, not verified: the four wire models; decInferLen / usableByteSlice / maxInitLen as transcribed by hand in C02/Alloc.v (the translator does not handle the local const block of decInferLen) and tied by the leaf stream through the hook VerifC02DecInferLen / VerifC02UsableByteSliceLen; GC, real memory, wall time and the recover at the Decode boundary are runtime'],
     'harness_timeout': {'quick': 400, 'thorough': 2400},
 }
 
@@ -43,6 +43,6 @@ def main(chk):
 MANIFEST = {
     'category': 'proof',
     'technique': 'Coq: per format, decoding any byte list with fuel linear in its length never runs out of fuel (assembled by exact from the wire-layer totality lemmas), every exceptional outcome is an Err class the Decode boundary recovers, step and allocation-request counts of instrumented models are linear in the input length with the caps of decInferLen / usableByteSlice / MaxInitLen (containerLenNil from Gen/Consts.v; decInferLen / usableByteSlice transcribed by hand and tied by a leaf correspondence stream); vm_compute correspondence of outcome class and NumBytesRead on hostile inputs; API-level oracle in subprocess workers (address-space limit, stack cap, watchdog) over format x destination x options x transport with hostile lengths in every length position, truncations, byte flips, random bytes and all 65792 one- and two-byte inputs',
-    'text': 'PARTIAL. Proved on the models (every byte list, option vector): C02_*_terminates (fuel K*(len+1) suffices, never OutOfFuel) for cbor, msgpack, simple, binc on the interface{} path and the skip/Raw walker; C02_only_recoverable; C02_alloc (allocation requests of every run tree satisfying the decoder's invariants <= MaxDepth*max(1024,MaxInitLen)*U + (KL+64+13U)*len, whatever lengths are claimed); C02_walker_steps_partial (a step-counting skeleton of the recursive walkers takes <= 4*len+2 steps for EVERY progressing head parser; not instantiated per format: there is no per-format C02_F_steps, the wire models expose fuel, not steps); C02_json_skip_terminates_partial (json: skip scanner only). The model decides termination, step and allocation-request COUNTS; real time, GC, resident memory, the panic->error recover and memory safety of unsafe are runtime and are only observed by the harness. Typed destinations, io.Reader and json: harness oracle only.',
+    'text': 'PARTIAL. Proved on the models (every byte list, option vector): C02_*_terminates (fuel K*(len+1) suffices, never OutOfFuel) for cbor, msgpack, simple, binc on the interface{} path and the skip/Raw walker; C02_only_recoverable; C02_alloc (allocation requests of every run tree satisfying the decoder invariants <= MaxDepth*max(1024,MaxInitLen)*U + (KL+64+13U)*len, whatever lengths are claimed); C02_walker_steps_partial (a step-counting skeleton of the recursive walkers takes <= 4*len+2 steps for EVERY progressing head parser; not instantiated per format: there is no per-format C02_F_steps, the wire models expose fuel, not steps); C02_json_skip_terminates_partial (json: skip scanner only). The model decides termination, step and allocation-request COUNTS; real time, GC, resident memory, the panic->error recover and memory safety of unsafe are runtime and are only observed by the harness. Typed destinations, io.Reader and json: harness oracle only.',
     'note': 'K0 is large by design of the code (64 MB usableByteSlice cap; MaxDepth * 1024 elements pre-sized per open container): the allocation oracle flags only gross violations (an uncapped claimed length). Trusted: Coq kernel, hand-written models, translator for decInferLen, harness and its constants.',
 }
